@@ -99,6 +99,8 @@ def _eval_requirement(body, ap, req):
         if pure:
             allowed = [parse_req(body, s) for s in pure]
             extra = [a for a in p_atoms(atoms) if not any(atom_matches(a, r) for r in allowed)]
+            # positions select which element is compared, they are not part of the compared value (`list.get(idx)` with idx counted along an index list)
+            extra = [a for a in extra if not (body.local_ty(a[1]).replace('&mut ', '').lstrip('&').strip() in ('usize', '[usize]', 'std::vec::Vec<usize>') and not a[2])]
             if extra:
                 continue
         if not missing:
